@@ -301,7 +301,27 @@ func c17Iter(c *core.Ctx, pkg *packages.Package) {
 		}
 		return true
 	})
-	okk := strings.Contains(expr, "Sum64(buf[:])") && strings.HasSuffix(expr, "% uint64(len(s.workchans))") && fills == "uint64(it.id)" &&
+	// names by role: the item (what the closure's parameter is asserted to), the hashed buffer (argument of Sum64)
+	itemN, bufN := "it", "buf"
+	ast.Inspect(fl.Body, func(n ast.Node) bool {
+		switch x := n.(type) {
+		case *ast.AssignStmt:
+			if len(x.Lhs) == 1 && len(x.Rhs) == 1 {
+				if ta, ok := x.Rhs[0].(*ast.TypeAssertExpr); ok && types.ExprString(ta.Type) == "Item" {
+					itemN = types.ExprString(x.Lhs[0])
+				}
+			}
+		case *ast.CallExpr:
+			if f := core.Callee(info, x); f != nil && f.Name() == "Sum64" && len(x.Args) == 1 {
+				if se, ok := x.Args[0].(*ast.SliceExpr); ok {
+					bufN = types.ExprString(se.X)
+				}
+			}
+		}
+		return true
+	})
+	rvN := an.RecvVarName(fn.Decl)
+	okk := strings.Contains(expr, "Sum64("+bufN+"[:])") && strings.HasSuffix(expr, "% uint64(len("+rvN+".workchans))") && fills == "uint64("+itemN+".id)" &&
 		!strings.Contains(expr, "when") && !strings.Contains(expr, "next") && !strings.Contains(expr, "Now")
 	c.Check(okk, "C17.affinity", "TreeScheduler.iterator#worker-index", idx.Pos(), "the worker index is `%s` over a buffer filled from `%s`; it must be hash(uint64(it.id)) %% len(workchans) so that one task always runs on one sequential worker", expr, fills)
 }
@@ -343,18 +363,25 @@ func c17Work(c *core.Ctx, pkg *packages.Package) {
 	}
 	c.Check(!chkInGo, "C17.work", "TreeScheduler.work#sync-checkpoint", chk.Pos(), "the checkpoint is written from a detached goroutine: writes of consecutive occurrences of one task can land out of order, the persisted last-scheduled time moves backwards and a later re-Schedule replays occurrences that already ran")
 	c.Check(exec.Pos() < chk.Pos(), "C17.work", "TreeScheduler.work#order", chk.Pos(), "the checkpoint must follow the execution")
-	// same occurrence time: both get the variable defined as time.Unix(it.next, 0)
+	// same occurrence time: both get the variable defined as time.Unix(it.next, 0); `it` is the range variable over the channel
+	itN := "it"
+	ast.Inspect(fn.Decl.Body, func(n ast.Node) bool {
+		if rs, ok := n.(*ast.RangeStmt); ok && rs.Key != nil {
+			itN = types.ExprString(rs.Key)
+		}
+		return true
+	})
 	tdef := ""
 	ast.Inspect(fn.Decl.Body, func(n ast.Node) bool {
 		if as, ok := n.(*ast.AssignStmt); ok && len(as.Lhs) == 1 && len(as.Rhs) == 1 {
-			if types.ExprString(as.Rhs[0]) == "time.Unix(it.next, 0)" {
+			if types.ExprString(as.Rhs[0]) == "time.Unix("+itN+".next, 0)" {
 				tdef = types.ExprString(as.Lhs[0])
 			}
 		}
 		return true
 	})
 	argOK := tdef != "" && len(exec.Args) >= 3 && types.ExprString(exec.Args[2]) == tdef && len(chk.Args) == 3 && types.ExprString(chk.Args[2]) == tdef &&
-		types.ExprString(exec.Args[1]) == "it.id" && types.ExprString(chk.Args[1]) == "it.id"
+		types.ExprString(exec.Args[1]) == itN+".id" && types.ExprString(chk.Args[1]) == itN+".id"
 	if chkInGo {
 		return
 	}
